@@ -88,6 +88,13 @@ def run(chk):
         lin = float(minersum(sr, [3.0 * x for x in cnt], sn, td=2.0 * td, scf=scf, th=th))
         if not close(lin, 6.0 * d, 1e-11):
             chk.fail("linear in counts and duration", inp, 6.0 * d, lin)
+        arr_s, arr_c = np.array(sr, dtype=float), np.array(cnt, dtype=float)
+        d_a1 = float(minersum(arr_s, arr_c, sn, td=td, scf=scf, th=th))
+        d_a2 = float(minersum(arr_s, arr_c, sn, td=td, scf=scf, th=th))
+        if not (np.array_equal(arr_s, np.array(sr, dtype=float)) and np.array_equal(arr_c, np.array(cnt, dtype=float)) and
+                close(d_a1, d, 1e-12) and close(d_a2, d, 1e-12)):
+            chk.fail("damage of a histogram given as float arrays equals that of the lists, on every call (inputs are not modified)",
+                     inp, d, [d_a1, d_a2])
         sc = float(minersum([s * scf for s in sr], cnt, sn, td=td, scf=1.0, th=th))
         if not close(sc, d, 1e-11):
             chk.fail("scf equivalent to scaling the stress ranges", inp, d, sc)
@@ -182,6 +189,18 @@ def run(chk):
             chk.fail("independent of the stress unit", inp, [float(b) * k for b in got], [float(a) for a in got2])
         if got.shape != (len(rows),):
             chk.fail("one corrected range per cycle", inp, (len(rows),), got.shape)
+    # integer cycle tables (whole MPa) are corrected like float ones
+    for _ in range(30 if chk.quick else 300):
+        uts = float(rng.randint(200, 900))
+        rows = [(rng.randint(1, 150), rng.choice([0, rng.randint(-100, 150)])) for _ in range(rng.choice([1, 2, 4]))]
+        gi = goodman_haigh(np.array(rows), int(uts))
+        gf = goodman_haigh(np.array(rows, dtype=float), uts)
+        gl = goodman_haigh([list(r) for r in rows], uts)
+        chk.count("gh-int")
+        exp = [r * uts / (uts - m) for r, m in rows]
+        if not (np.allclose(np.asarray(gi, dtype=float), exp, rtol=1e-12) and np.allclose(gf, exp, rtol=1e-12) and np.allclose(np.asarray(gl, dtype=float), exp, rtol=1e-12)):
+            chk.fail("effective range == range*uts/(uts-mean) also for integer-valued cycle tables", dict(cycles=rows, uts=uts), exp,
+                     [np.asarray(gi, dtype=float).tolist(), np.asarray(gf).tolist()])
     chk.sample(dict(cycles=gm[0][1], uts=gm[0][0]))
 
 
